@@ -695,6 +695,40 @@ func (h *heapRun) apply(st Step, ret map[string]interface{}) error {
 	// ---------------- mask
 	case "Mask":
 		return needAlign(o).Mask(astr(a, "ref"), ai(a, "start"), ai(a, "len"), astr(a, "repl"), ab(a, "nogap"), ab(a, "noref"))
+	case "MaskPositions":
+		// every position is converted (when given on a reference) and checked on the alignment as it is, then masked
+		al := needAlign(o)
+		ref := astr(a, "ref")
+		cols := []int{}
+		for _, p := range aints(a, "pos") {
+			if ref != "" {
+				s, _, err := al.RefCoordinates(ref, p, 1)
+				if err != nil {
+					return err
+				}
+				p = s
+			} else if p < 0 || p > al.Length() {
+				return fmt.Errorf("position %d is outside the alignment", p)
+			}
+			cols = append(cols, p)
+		}
+		// (a replacement the library refuses is refused before anything is changed)
+		if len(cols) == 0 {
+			cols = append(cols, al.Length())
+		}
+		probe, err := al.Clone()
+		if err != nil {
+			return err
+		}
+		if err := probe.Mask(ref, al.Length(), 1, astr(a, "repl"), ab(a, "nogap"), ab(a, "noref")); err != nil {
+			return err
+		}
+		for _, p := range cols {
+			if err := al.Mask(ref, p, 1, astr(a, "repl"), ab(a, "nogap"), ab(a, "noref")); err != nil {
+				return err
+			}
+		}
+		return nil
 	case "MaskOccurences":
 		return needAlign(o).MaskOccurences(astr(a, "ref"), ai(a, "max"), astr(a, "repl"))
 	case "MaskUnique":
